@@ -72,12 +72,14 @@ Print Assumptions mutex_for_contract_respecting_programs.
    most one thread inside, exactly one on entry and none left on exit, the object locked;
    and the log is self-consistent as a sequence of enter / exit events) accepts every trace
    the model can produce within the contract, for ALL configurations, fault scripts, programs
-   and controller traces of steps and clock advances: on any case where the implementation's
-   occupancy log equals the model's, the monitor cannot raise a false alarm. *)
+   and controller traces of steps, clock advances AND process crashes (the scheduled runs keep
+   all threads in process 0: its crash ends the log, any other crash changes nobody's status):
+   on any case where the implementation's occupancy log equals the model's, the monitor
+   cannot raise a false alarm. *)
 Theorem monitor_complete :
   forall cfg fl progs trace r0 o0 f0 e0 k0,
     let '(g, rs, oc, fin, ec, vi) := Case_C02.model_trace (Case_C02.CSched cfg fl progs trace r0 o0 f0 e0 k0) in
-    vi = false -> nocrash trace = true -> Case_C02.ok (Case_C02.CSched cfg fl progs trace rs oc fin ec 0) = true.
+    vi = false -> Case_C02.ok (Case_C02.CSched cfg fl progs trace rs oc fin ec 0) = true.
 Proof. exact monitor_complete_lemma. Qed.
 Print Assumptions monitor_complete.
 
